@@ -9,13 +9,20 @@
 //   end
 // readv is interposed (-Wl,--wrap=readv): the wrapper records the iovec array Buffer::readFd
 // offers (count, lengths, base of vec[0]) and can make the call fail with a given errno.
-// Documented preconditions (the asserts on arguments) are tested here on the public
-// observers; a violating op is reported "rejected" and not executed.
+// Documented preconditions (the asserts on arguments): the verdict printed is the REAL class's.
+// __assert_fail is interposed (-Wl,--wrap=__assert_fail, as in the C18 driver).  An op whose
+// precondition holds (tested here on the public observers) runs on the buffer itself; should the
+// class assert all the same the line is "rejected assert:<expr>".  An op whose precondition FAILS is
+// issued too -- on a heap copy of the buffer, so that the case can go on --: "rejected -" when the
+// class asserts (what the model's Rejected and the oracle expect), "ok noassert" when it does not
+// (a weakened / wrong argument assert: review B-2).  The buffer of the case is never touched by a
+// violating call.
 #include "muduo/net/Buffer.h"
 #include "common.h"
 
 #include <errno.h>
 #include <fcntl.h>
+#include <setjmp.h>
 #include <sys/uio.h>
 #include <unistd.h>
 #include <iostream>
@@ -47,6 +54,56 @@ extern "C" ssize_t __wrap_readv(int fd, const struct iovec* iov, int cnt)
 }
 
 static const int kErrUnset = -12345;
+
+// ---- assertions of the class under test are caught while a guarded call is in flight ----------
+static sigjmp_buf g_jmp;
+static volatile bool g_armed = false;
+static string g_assertText;
+static Buffer* g_tmp = NULL;
+extern "C" void __real___assert_fail(const char* expr, const char* file, unsigned int line, const char* func);
+extern "C" void __wrap___assert_fail(const char* expr, const char* file, unsigned int line, const char* func)
+{
+  if (g_armed)
+  {
+    g_armed = false;
+    g_assertText = expr ? expr : "?";
+    for (size_t i = 0; i < g_assertText.size(); ++i) if (g_assertText[i] == ' ') g_assertText[i] = '_';
+    siglongjmp(g_jmp, 1);
+  }
+  __real___assert_fail(expr, file, line, func);
+}
+
+template <class F> static bool asserted(F f)
+{
+  g_armed = true;
+  if (sigsetjmp(g_jmp, 1) == 0) { f(); g_armed = false; return false; }
+  g_armed = false;
+  return true;
+}
+
+enum Verdict { kRan = 0, kRejected = 1, kNoAssert = 2, kAssertedValid = 3 };
+
+// f(Buffer&) issues the call.  pre = the documented precondition on the public observers.
+template <class F> static Verdict guarded(bool pre, Buffer& b, F f)
+{
+  if (pre) return asserted([&] { f(b); }) ? kAssertedValid : kRan;
+  g_tmp = new Buffer(b);                       // the violating call never touches the case's buffer
+  bool a = asserted([&] { f(*g_tmp); });
+  delete g_tmp;                                // the assert is the first statement: the copy is intact
+  g_tmp = NULL;
+  return a ? kRejected : kNoAssert;
+}
+
+static void showVerdict(Verdict v, const string& out, const Buffer& b)
+{
+  switch (v)
+  {
+    case kRan: show("ok", out, b); break;
+    case kRejected: show("rejected", "-", b); break;
+    case kNoAssert: show("ok", "noassert", b); break;
+    case kAssertedValid: show("rejected", "assert:" + g_assertText, b); break;
+  }
+}
 
 // "rd:<n>:<iovcnt>:<vec[0].iov_len>:<errno or ->:cap=<sum of offered lengths>"
 static string readResult(const Buffer& before_unused, ssize_t n, int err, const void* expectedBase)
@@ -105,28 +162,27 @@ int main()
     else if (k == "P")
     {
       string d = vh::bytesOfSpec(w[1]);
-      if (d.size() <= b.prependableBytes()) { b.prepend(d.data(), d.size()); show("ok", "-", b); }
-      else show("rejected", "-", b);
+      showVerdict(guarded(d.size() <= b.prependableBytes(), b, [&](Buffer& x) { x.prepend(d.data(), d.size()); }), "-", b);
     }
-    else if (k == "R") { if (n <= b.readableBytes()) { b.retrieve(n); show("ok", "-", b); } else show("rejected", "-", b); }
+    else if (k == "R") showVerdict(guarded(n <= b.readableBytes(), b, [&](Buffer& x) { x.retrieve(n); }), "-", b);
     else if (k == "RA") { b.retrieveAll(); show("ok", "-", b); }
     else if (k == "RU")
     {
-      if (sn >= 0 && static_cast<size_t>(sn) <= b.readableBytes()) { b.retrieveUntil(b.peek() + sn); show("ok", "-", b); }
-      else show("rejected", "-", b);
+      showVerdict(guarded(sn >= 0 && static_cast<size_t>(sn) <= b.readableBytes(), b,
+                          [&](Buffer& x) { x.retrieveUntil(x.peek() + sn); }), "-", b);
     }
     else if (k == "RN")
     {
-      if (n > b.readableBytes()) { show("rejected", "-", b); continue; }
-      switch (n)
-      {
-        case 1: b.retrieveInt8(); break;
-        case 2: b.retrieveInt16(); break;
-        case 4: b.retrieveInt32(); break;
-        case 8: b.retrieveInt64(); break;
-        default: fprintf(stderr, "bad width\n"); return 2;
-      }
-      show("ok", "-", b);
+      if (n != 1 && n != 2 && n != 4 && n != 8) { fprintf(stderr, "bad width\n"); return 2; }
+      showVerdict(guarded(n <= b.readableBytes(), b, [&](Buffer& x) {
+        switch (n)
+        {
+          case 1: x.retrieveInt8(); break;
+          case 2: x.retrieveInt16(); break;
+          case 4: x.retrieveInt32(); break;
+          default: x.retrieveInt64(); break;
+        }
+      }), "-", b);
     }
     else if (k == "RAS")
     {
@@ -148,26 +204,19 @@ int main()
     else if (k == "AS") { *c = *a; show("ok", "-", b); }
     else if (k == "RS")
     {
-      if (n <= b.readableBytes())
-      {
-        string s = b.retrieveAsString(n);
-        show("ok", "b:" + vh::fnv(s) + ":" + std::to_string(s.size()), b);
-      }
-      else show("rejected", "-", b);
+      string s;
+      Verdict v = guarded(n <= b.readableBytes(), b, [&](Buffer& x) { s = x.retrieveAsString(n); });
+      showVerdict(v, v == kRan ? "b:" + vh::fnv(s) + ":" + std::to_string(s.size()) : string("-"), b);
     }
     else if (k == "EW") { b.ensureWritableBytes(n); show("ok", "-", b); }
     else if (k == "HW")
     {
       string d = vh::bytesOfSpec(w[1]);
-      if (d.size() <= b.writableBytes())
-      {
-        memcpy(b.beginWrite(), d.data(), d.size());   // what a codec does before hasWritten
-        b.hasWritten(d.size());
-        show("ok", "-", b);
-      }
-      else show("rejected", "-", b);
+      bool pre = d.size() <= b.writableBytes();
+      if (pre) memcpy(b.beginWrite(), d.data(), d.size());   // what a codec does before hasWritten
+      showVerdict(guarded(pre, b, [&](Buffer& x) { x.hasWritten(d.size()); }), "-", b);
     }
-    else if (k == "UW") { if (n <= b.readableBytes()) { b.unwrite(n); show("ok", "-", b); } else show("rejected", "-", b); }
+    else if (k == "UW") showVerdict(guarded(n <= b.readableBytes(), b, [&](Buffer& x) { x.unwrite(n); }), "-", b);
     else if (k == "SH") { b.shrink(n); show("ok", "-", b); }
     else if (k == "SW") { a->swap(*c); show("ok", "-", *a); }
     else if (k == "RF")
@@ -193,32 +242,33 @@ int main()
     {
       long long x = strtoll(w[2].c_str(), NULL, 10);
       bool pre = (k == "PI");
-      if (pre && n > b.prependableBytes()) { show("rejected", "-", b); continue; }
-      switch (n)
-      {
-        case 1: pre ? b.prependInt8(static_cast<int8_t>(x)) : b.appendInt8(static_cast<int8_t>(x)); break;
-        case 2: pre ? b.prependInt16(static_cast<int16_t>(x)) : b.appendInt16(static_cast<int16_t>(x)); break;
-        case 4: pre ? b.prependInt32(static_cast<int32_t>(x)) : b.appendInt32(static_cast<int32_t>(x)); break;
-        case 8: pre ? b.prependInt64(x) : b.appendInt64(x); break;
-        default: fprintf(stderr, "bad width\n"); return 2;
-      }
-      show("ok", "-", b);
+      if (n != 1 && n != 2 && n != 4 && n != 8) { fprintf(stderr, "bad width\n"); return 2; }
+      showVerdict(guarded(!pre || n <= b.prependableBytes(), b, [&](Buffer& y) {
+        switch (n)
+        {
+          case 1: pre ? y.prependInt8(static_cast<int8_t>(x)) : y.appendInt8(static_cast<int8_t>(x)); break;
+          case 2: pre ? y.prependInt16(static_cast<int16_t>(x)) : y.appendInt16(static_cast<int16_t>(x)); break;
+          case 4: pre ? y.prependInt32(static_cast<int32_t>(x)) : y.appendInt32(static_cast<int32_t>(x)); break;
+          default: pre ? y.prependInt64(x) : y.appendInt64(x); break;
+        }
+      }), "-", b);
     }
     else if (k == "KI" || k == "RI")
     {
-      if (n > b.readableBytes()) { show("rejected", "-", b); continue; }
+      if (n != 1 && n != 2 && n != 4 && n != 8) { fprintf(stderr, "bad width\n"); return 2; }
       bool rd = (k == "RI");
       long long v = 0;
-      switch (n)
-      {
-        case 1: v = rd ? b.readInt8() : b.peekInt8(); break;
-        case 2: v = rd ? b.readInt16() : b.peekInt16(); break;
-        case 4: v = rd ? b.readInt32() : b.peekInt32(); break;
-        case 8: v = rd ? b.readInt64() : b.peekInt64(); break;
-        default: fprintf(stderr, "bad width\n"); return 2;
-      }
+      Verdict vd = guarded(n <= b.readableBytes(), b, [&](Buffer& y) {
+        switch (n)
+        {
+          case 1: v = rd ? y.readInt8() : y.peekInt8(); break;
+          case 2: v = rd ? y.readInt16() : y.peekInt16(); break;
+          case 4: v = rd ? y.readInt32() : y.peekInt32(); break;
+          default: v = rd ? y.readInt64() : y.peekInt64(); break;
+        }
+      });
       snprintf(tmp, sizeof tmp, "i:%lld", v);
-      show("ok", tmp, b);
+      showVerdict(vd, tmp, b);
     }
     else if (k == "FC0" || k == "FE0")
     {
@@ -228,10 +278,12 @@ int main()
     }
     else if (k == "FC" || k == "FE")
     {
-      if (sn < 0 || static_cast<size_t>(sn) > b.readableBytes()) { show("rejected", "-", b); continue; }
-      const char* p = (k == "FC") ? b.findCRLF(b.peek() + sn) : b.findEOL(b.peek() + sn);
-      if (p == NULL) show("ok", "none", b);
-      else { snprintf(tmp, sizeof tmp, "at:%ld", static_cast<long>(p - b.peek())); show("ok", tmp, b); }
+      const char* p = NULL;
+      Verdict vd = guarded(!(sn < 0 || static_cast<size_t>(sn) > b.readableBytes()), b, [&](Buffer& y) {
+        p = (k == "FC") ? y.findCRLF(y.peek() + sn) : y.findEOL(y.peek() + sn);
+      });
+      if (vd != kRan || p == NULL) showVerdict(vd, "none", b);
+      else { snprintf(tmp, sizeof tmp, "at:%ld", static_cast<long>(p - b.peek())); showVerdict(vd, tmp, b); }
     }
     else { fprintf(stderr, "bad op %s\n", k.c_str()); return 2; }
   }
